@@ -14,7 +14,7 @@ def gen_config(rng, tier):
     wide = False
     if rng.random() < 0.02:
         n = rng.choice([7, 8, 9])      # a few runs on larger registers (word / byte boundaries, wider tableaux)
-    elif rng.random() < 0.012 and seams.MODE == "JIT":
+    elif rng.random() < 0.03 and seams.MODE == "JIT":
         n = rng.choice([33, 65, 66, 72])   # qubit indices beyond 32 / 64 (operator probes only)
         wide = True
     ops = {"ccnew": 0.6, "take": 5.0, "fwd": 3.0}
@@ -23,7 +23,8 @@ def gen_config(rng, tier):
         if rng.random() < 0.7:
             ops[k] = w * rng.choice([0.5, 1.0, 2.0])
     faults = [f for f in ("rejected_op",) if rng.random() < 0.7]
-    return {"n": n, "steps": (lambda x: min(x, 14) if n >= 6 else x)(rng.randrange(5, 40) if tier != "thorough" else rng.randrange(5, 90)), "ops": ops, "faults": faults, "flags": ["c09"],
+    hot = sorted(set([0, n - 1, n - 2, min(63, n - 3), min(64, n - 1), 31, 32] + [rng.randrange(n) for _ in range(2)])) if wide else None
+    return {"hot": hot, "n": n, "steps": (lambda x: min(x, 14) if n >= 6 else x)(rng.randrange(5, 40) if tier != "thorough" else rng.randrange(5, 90)), "ops": ops, "faults": faults, "flags": ["c09"],
             "max_gates": rng.choice([4, 8, 12] if tier != "thorough" else [4, 8, 12, 24]), "backend": "torch" if rng.random() < 0.15 and not wide else "numpy"}
 
 
